@@ -9,7 +9,7 @@
 //	for v := range ch {}  -> for { v, ok := vsched.Recv2(ch); if !ok { break }; ... }
 //	close(ch)             -> vsched.Close(ch)
 //	select {...}          -> switch vs_sel := vsched.Select[Default](cases...); vs_sel.Index {...}
-//	time.Now/Since/Sleep/NewTicker -> vsched.TimeNow/...
+//	time.Now/Since/Sleep/Until/NewTicker/NewTimer/After -> vsched.TimeNow/... (virtual time; timers are explored choices)
 //	import "sync", "sync/atomic", "math/rand" -> shim packages with the same names
 //
 // Anything it cannot translate makes it exit non-zero; the check then reports
@@ -141,10 +141,10 @@ func post(c *astutil.Cursor) bool {
 	case *ast.SelectorExpr:
 		if id, ok := x.X.(*ast.Ident); ok && id.Name == "time" && id.Obj == nil {
 			switch x.Sel.Name {
-			case "Now", "Since", "Sleep", "NewTicker", "Until":
+			case "Now", "Since", "Sleep", "NewTicker", "Until", "NewTimer", "After":
 				counts["time"]++
 				c.Replace(vs("Time" + x.Sel.Name))
-			case "After", "Tick", "NewTimer", "AfterFunc":
+			case "Tick", "AfterFunc":
 				fail(x.Pos(), "time.%s is not supported by the scheduler shim", x.Sel.Name)
 			}
 		}
